@@ -166,7 +166,25 @@ func (b *loopBatch) sendLocked(it *litem, overtook bool, kind string) {
 	maxPad := 3000
 	pad := []int{0, b.rng.Intn(64), b.rng.Intn(600), b.rng.Intn(maxPad)}[b.rng.Intn(4)]
 	tok := fmt.Sprintf("%s/%s/c%d/q%d/n%d", kind, b.cfg.Proto, it.conn, it.qi.Seq, b.nrep)
-	msg := dnsadv.Reply(it.qi.WireID, 0x8180, it.qi.QSect, tok, pad, byte(b.nrep))
+	wid := it.qi.WireID
+	switch b.cfg.Proto {
+	case "https", "h3", "quic":
+		// The request/stream, not the message ID, correlates query and reply
+		// here, so the server is free to stamp any ID (resolvers answering from
+		// a shared cache do): the caller's ID must be restored regardless.
+		switch b.rng.Intn(4) {
+		case 1:
+			wid = uint16(b.rng.Intn(65536))
+		case 2:
+			wid = 0xFFFF
+		case 3:
+			wid = uint16(it.qi.Seq)*257 + 1
+		}
+		if wid != it.qi.WireID {
+			rep.Count("replies_with_server_chosen_id:"+b.cfg.Proto, 1)
+		}
+	}
+	msg := dnsadv.Reply(wid, 0x8180, it.qi.QSect, tok, pad, byte(b.nrep))
 	b.reps[tok] = msg
 	b.meta[tok] = replyMeta{overtook: overtook, noise: b.noise, connID: it.conn}
 	it.reply(msg)
